@@ -125,7 +125,8 @@ def work(item, res):
                     variants = [wd * wi + '.' + fd * fi, wd * wi + fd * fi, '0' * 3 + wd * wi + '.' + fd * fi,
                                 wd * wi + '.' + fd * fi + '0' * 3, '-' + wd * wi + '.' + fd * fi,
                                 '+' + wd * wi + '.' + fd * fi, ' ' + wd * wi + '.' + fd * fi,
-                                wd * wi + '.' + fd * fi + ' ', wd * wi + ',' + fd * fi, wd * wi + '.' + fd * fi + 'e1',
+                                wd * wi + '.' + fd * fi + ' ', wd * wi + ',' + fd * fi, wd * wi + '.' + fd * fi + 'e1', wd * wi + '.' + fd * fi + 'E1', wd * wi + '.' + fd * fi + 'E-1',
+                                wd * wi + '.' + fd * fi + 'E+1', wd * wi + 'E' + fd * fi, wd * wi + '.' + fd * fi + 'e-8',
                                 wd * wi + '..' + fd * fi, wd * wi + '.' + fd * fi + '.' + fd]
                     for s in variants:
                         check_str(s, res, l2d)
@@ -154,7 +155,7 @@ def run(ctx):
     items = [('window', b, W) for b in boundaries()]
     wholes = [0, 9, 10, 99_999_999, 90_071_992, 1_083_000_000, 2_099_999_999]
     items += [('frac_grid', w) for w in wholes]
-    alphabet = '019.-+e ,_'
+    alphabet = '019.-+eE ,_'
     maxlen = 5 if ctx.quick else 6
     items += [('strings', a, alphabet, maxlen) for a in alphabet] + [('strings', '', alphabet, 1)]
     items += [('digitgrid',)]
@@ -169,7 +170,7 @@ def run(ctx):
     ctx.meta.update(
         rule=('integers: every n in +-W windows around 0, 10^k (k<=17), 2^k (50<=k<=57), supply and 2.1e17, '
               'and their negatives; w*10^8+f for 7 whole parts x (quick: every f = k*10^j+-1 grid; thorough: all '
-              '10^8 fractional parts); strings: every string of length <= L over "019.-+e ,_" plus a digit-count '
+              '10^8 fractional parts); strings: every string of length <= L over "019.-+eE ,_" plus a digit-count '
               'grid 0..12 x 0..10 with 12 decorations each. Non-trivial/distinct = distinct (window | whole part | '
               'string first symbol | grid cell) classes, all of which exercise a boundary named in the statement.'),
         exhaustive=True,
